@@ -218,6 +218,39 @@ pub struct BTreeReader<'a> {
     root_page: u32,
 }
 
+/// Resolves the position `(page_no, index)` of a forward cursor to the entry it denotes:
+/// when `index` is past the last cell of the leaf, the next entry in key order is the
+/// first cell of the next non-empty leaf in the chain. Returns the settled position and
+/// whether the chain ended without another entry.
+fn settle_forward<S: Storage + ?Sized>(
+    storage: &S,
+    mut page_no: u32,
+    mut index: usize,
+) -> Result<(u32, usize, bool)> {
+    let page_count = storage.page_count();
+    let mut hops = 0u32;
+    loop {
+        let leaf = LeafNode::from_page(storage.page(page_no)?)?;
+        if index < leaf.cell_count() as usize {
+            return Ok((page_no, index, false));
+        }
+        let next_page = leaf.next_leaf();
+        if next_page == 0 {
+            return Ok((page_no, index, true));
+        }
+        ensure!(
+            next_page < page_count && hops < page_count,
+            "corrupt next_leaf pointer: page {} has next_leaf={} but page_count={}",
+            page_no,
+            next_page,
+            page_count
+        );
+        hops += 1;
+        page_no = next_page;
+        index = 0;
+    }
+}
+
 impl<'a> BTreeReader<'a> {
     pub fn new(storage: &'a MmapStorage, root_page: u32) -> Result<Self> {
         ensure!(
@@ -364,12 +397,13 @@ impl<'a> BTreeReader<'a> {
                         SearchResult::NotFound(idx) => idx,
                     };
 
-                    let exhausted = index >= leaf.cell_count() as usize;
+                    let (current_page, current_index, exhausted) =
+                        settle_forward(self.storage, current_page, index)?;
                     return Ok(Cursor {
                         storage: self.storage,
                         root_page: self.root_page,
                         current_page,
-                        current_index: index,
+                        current_index,
                         exhausted,
                     });
                 }
@@ -1304,12 +1338,13 @@ impl<'a, S: Storage> BTree<'a, S> {
                         SearchResult::NotFound(idx) => idx,
                     };
 
-                    let exhausted = index >= leaf.cell_count() as usize;
+                    let (current_page, current_index, exhausted) =
+                        settle_forward(self.storage, current_page, index)?;
                     return Ok(Cursor {
                         storage: self.storage,
                         root_page: self.root_page,
                         current_page,
-                        current_index: index,
+                        current_index,
                         exhausted,
                     });
                 }
